@@ -447,6 +447,39 @@ def run(ctx):
     # ---- R-C12.10 one keyspace's maintenance never touches another keyspace's folder (shared: C16/C18 use the generic form)
     owner_coherence(ctx, "R-C12.10")
 
+    # ---- R-C12.13 "its files disappear once the last handle is dropped": delete_keyspace itself makes the sealed journals let go
+    # of the deleted keyspace's handle (their eviction watermarks hold one) — on an idle database nothing else would
+    dk = ctx.fn("db::Database::delete_keyspace", "R-C12.13")
+    if dk:
+        st = [b for b, t in dk.calls() if A.cname(t) == "std::sync::atomic::Atomic::<bool>::store"]
+        mt = [b for b, t in dk.calls() if A.cname(t) == "journal::manager::JournalManager::maintenance"]
+        errs = list(A.error_starts(dk))
+        ok = bool(st) and bool(mt) and all(A.dominates(dk, st[0], m_) for m_ in mt) and not [x for x in dk.return_blocks() if x in A.reach(dk, dk.succs(st[0]), avoid=mt + errs)]
+        ctx.ob("R-C12.13", dk, "deletion-releases-the-sealed-journals-handles", ok,
+               "after the deleted flag is raised, delete_keyspace runs JournalManager::maintenance (which drops the watermarks of deleted keyspaces)" if ok else
+               "delete_keyspace does not run the journal maintenance after raising the deleted flag: a sealed journal's watermarks keep a handle of the keyspace, and its folder stays on disk after the last user handle is gone until some other keyspace happens to be flushed")
+    # ---- R-C12.14 a batch (and with it every transaction commit and tx-keyspace helper) refuses a deleted keyspace, before
+    # anything is journaled
+    wbc = ctx.fn("batch::WriteBatch::commit", "R-C12.14")
+    if wbc:
+        app = R.call_blocks(wbc, R.APPEND)
+        lock = R.j_acquire_blocks(ctx, wbc)
+        kd = [b for b, blk in enumerate(wbc.blocks) if not blk["cleanup"] for st_ in blk["s"]
+              if st_["rv"]["k"] == "agg" and st_["rv"].get("adt") == "error::Error" and st_["rv"].get("variant") == "KeyspaceDeleted"]
+        checks = []
+        for f2 in [wbc] + F.closures_of(wbc.id):
+            for b, t in f2.calls():
+                if A.cname(t) == "std::sync::atomic::Atomic::<bool>::load" and any(x.k == "field" and x.a[1] == "is_deleted" for x in A.walk(ctx.og(f2).of_operand(t["args"][0]))):
+                    checks.append((f2, b))
+        ok = bool(kd) and bool(checks) and bool(app) and all(A.dominates(wbc, k, k) for k in kd) and not any(a in A.reach(wbc, [k]) for k in kd for a in app) \
+            and all(not A.dominates(wbc, a, k) for a in app for k in kd)
+        # the refusal comes BEFORE the append: the KeyspaceDeleted block is not reachable from the append
+        if ok:
+            ok = not any(k in A.reach_after(wbc, a) for a in app for k in kd)
+        ctx.ob("R-C12.14", wbc, "batch-refuses-a-deleted-keyspace-before-journaling", ok,
+               "WriteBatch::commit answers KeyspaceDeleted for a batch that touches a deleted keyspace, before the journal append" if ok else
+               "WriteBatch::commit does not refuse (or refuses only after journaling) a batch that writes to a deleted keyspace: transaction commits and the tx keyspaces' insert/remove through an old handle are acknowledged")
+
     # ---- cross-cutting disciplines (rules/discipline.py)
     from .. import discipline as D
     # a keyspace creation / deletion that fails says so
